@@ -85,6 +85,16 @@ CHECKS = [
               'bounds-checked pointers (no Cython here): source-level defects are in reach, compiler-level effects are not. '
               'Documented exclusions (Lv/Ts/Og, rings > 65) are skipped and counted.',
          technique='differential property-based testing of two configurations + exhaustive sweep of the bit layout'),
+    dict(id='C10',
+         text='Round trip and layout by generated inputs: molecules in raw/Kekule/thiele state renumbered to non-contiguous numbers '
+              '<= 4095 with drawn coordinates, star scaffolds (0-15 neighbours), bond-count residues mod 8, every element x '
+              'tabulated isotope with rotating charge/H/radical, reactions with 0-3 molecules per role incl. empty roles: '
+              'unpack(pack(x)) field by field, bytes equal to an independent reference encoder, reference decoder equal to '
+              'unpack, version-0 order block, pack_len, dispatch, format limits; the published packs (every 10th quick, all '
+              '4200 thorough) against the reference decoder, re-packing and the csv constitution.',
+         note='Trusted: vf/oracles/packref.py written from the docstring layout; codec run through the pyx transliterator. Pair '
+              'orientation in cis/trans records and float16 truncation vs rounding are not fixed by the layout text; either accepted.',
+         technique='round-trip + differential (independent reference codec) property-based testing; regression corpus of published packs'),
     dict(id='C18',
          text='Exhaustive enumeration of the finite domain (118 elements x all tabulated isotopes + unspecified x charge '
               '-4..+4 x radical): lookups against a literal standard table, table-key consistency, mass computability, '
